@@ -751,11 +751,43 @@ impl<'a> WInterp<'a> {
                     }
                 } else {
                     let n = n.min(room);
-                    wtr!(self, "writer().write_all({} bytes); flush()", n);
-                    let r = catch_unwind(AssertUnwindSafe(|| w.write_all(&data[..n]).and_then(|_| w.flush())));
-                    match r {
-                        Ok(Ok(())) => self.model.write(&data[..n]),
-                        _ => self.v("C12", "writer-write_all-failed", format!("{} bytes, room {}", n, room)),
+                    match b % 3 {
+                        1 => {
+                            // Write::write_fmt (the data is printable ASCII)
+                            wtr!(self, "write!(writer(), \"{{}}\", <{} bytes>); flush()", n);
+                            let st = std::str::from_utf8(&data[..n]).unwrap_or("");
+                            let r = catch_unwind(AssertUnwindSafe(|| write!(w, "{}", st).and_then(|_| w.flush())));
+                            match r {
+                                Ok(Ok(())) => self.model.write(&data[..n]),
+                                _ => self.v("C12", "writer-write_all-failed", format!("write_fmt: {} bytes, room {}", n, room)),
+                            }
+                        }
+                        2 => {
+                            // Write::write_vectored (std's default writes the first non-empty buffer; an override may take more): any
+                            // count in 1..=n is right, the rest is written with write_all
+                            let cut = n / 3;
+                            wtr!(self, "writer().write_vectored([{}, {}]); write_all(rest)", cut, n - cut);
+                            let r = catch_unwind(AssertUnwindSafe(|| {
+                                let k = w.write_vectored(&[std::io::IoSlice::new(&data[..cut]), std::io::IoSlice::new(&data[cut..n])])?;
+                                if k > n || (k == 0 && n > 0) {
+                                    return Ok(Err(k));
+                                }
+                                w.write_all(&data[k..n]).map(|_| Ok(k))
+                            }));
+                            match r {
+                                Ok(Ok(Ok(_))) => self.model.write(&data[..n]),
+                                Ok(Ok(Err(k))) => self.v("C12", "writer-write-count", format!("write_vectored returned {} for {} bytes with room {}", k, n, room)),
+                                _ => self.v("C12", "writer-write_all-failed", format!("write_vectored + write_all: {} bytes, room {}", n, room)),
+                            }
+                        }
+                        _ => {
+                            wtr!(self, "writer().write_all({} bytes); flush()", n);
+                            let r = catch_unwind(AssertUnwindSafe(|| w.write_all(&data[..n]).and_then(|_| w.flush())));
+                            match r {
+                                Ok(Ok(())) => self.model.write(&data[..n]),
+                                _ => self.v("C12", "writer-write_all-failed", format!("{} bytes, room {}", n, room)),
+                            }
+                        }
                     }
                 }
                 let _ = w.get_ref();
